@@ -95,6 +95,39 @@ def shard(ctx: Ctx, framing: str = "plain", prop: str = "C01") -> None:
                     if sim.conns and sim.conns[0].obj.connection_state.name != "CONNECTED":
                         res.violation(f"{prop}/S/closed-on-conformant-stream", f"{plan}: connection {sim.conns[0].obj.connection_state.name} after a conformant stream "
                                       f"(first fatal {sim.conns[0].fatals[:1]})", case, trace=sim.trace(30))
+    # (c) the device's last words: a PingRequest (or time request) and then more frames in ONE chunk, on a socket the device has already reset - the
+    #     answer's send() fails (EPIPE / ECONNRESET), asyncio silently starts closing the transport, connection_lost comes an iteration later.
+    #     The frames behind the request were complete when the chunk arrived: they are handed over before the loss is reported
+    for req in ("PingRequest", "GetTimeRequest"):
+        for behind in (1, 6):
+            for err in (32, 104):
+                idx += 1
+                if not ctx.mine(idx):
+                    continue
+                with Sim() as sim:
+                    try:
+                        cli, dconn, got = session(sim, None, framing)
+                    except RuntimeError as e:
+                        res.inconclusive.append(f"{prop} part S: {e}")
+                        continue
+                    dconn.sock.send_fault = BrokenPipeError(32, "Broken pipe") if err == 32 else ConnectionResetError(104, "Connection reset by peer")
+                    msgs = [getattr(pb, req)()] + [pb.SensorStateResponse(key=300 + k, state=2.0) for k in range(behind)]
+                    dconn.outbox = []
+                    for m in msgs:
+                        dconn.send_msg(m)
+                    out_, dconn.outbox = dconn.outbox, None
+                    dconn.deliver_items(out_, 0.0)
+                    sim.run_for(0.05)
+                    res.evaluations += 1
+                    res.count("S/reply-fails-inside-read-loop")
+                    res.sig("S-reply-fails", req, behind, err)
+                    keys = [s.key for s in got]
+                    case = {"part": "S", "reply_send_fails_with": err, "request": req, "frames_behind": behind, "framing": framing}
+                    if keys != [300 + k for k in range(behind)]:
+                        res.violation(f"{prop}/S/frames-lost-behind-ping", f"chunk = {req} + {behind} state frames, the reply's send() fails with errno {err}: delivered "
+                                      f"keys {keys} ({len(keys)} of {behind})", case, trace=sim.trace(30))
+                    else:
+                        res.count("S/frames_delivered_and_checked", len(keys))
     # (b) the client answers from inside the read loop (PingRequest -> PingResponse) while its own write buffer is full up to the transport's
     #     high-water mark (a device that reads slowly): whatever flow control does with that write, the frames behind the PingRequest in the same
     #     chunk are complete and must be handed over
